@@ -124,7 +124,7 @@ def compile_program(src, compiler):
     return binp, 'built', dt, False
 
 
-def clang_default_limit_probe(thr):
+def clang_default_limit_probe(thr, bisect=True):
     """largest n <= thr for which `aggregate<E<0>..E<n-1>> a;` compiles with clang++ and its DEFAULT limits
     (-fsyntax-only, bisection); None when clang++ is missing. thr itself compiling -> thr."""
     if not shutil.which('clang++') or not thr or thr > 2000:
@@ -141,6 +141,8 @@ def clang_default_limit_probe(thr):
         return rc == 0
     if ok(thr):
         return thr
+    if not bisect:
+        return thr - 1      # 'does not compile at the threshold'; the exact limit is measured in the thorough tier
     lo, hi = 0, thr
     while hi - lo > 1:
         mid = (lo + hi) // 2
@@ -626,11 +628,11 @@ def main():
         runner.close()
 
     clang_limit = None
-    if ctx.thorough:
-        clang_limit = clang_default_limit_probe(thr)
+    if True:
+        clang_limit = clang_default_limit_probe(thr, bisect=ctx.thorough)
         if clang_limit is not None and thr and clang_limit < thr:
             msg = ('clang++ with its default -ftemplate-depth cannot compile a single-tuple aggregate of more than %d elements '
-                   '(libstdc++ std::tuple), although aggregate only splits above %d: use_definitions with %d..%d defined combinations '
+                   '(libstdc++ std::tuple; exact limit measured in the thorough tier only), although aggregate only splits above %d: use_definitions with %d..%d defined combinations '
                    'needs -ftemplate-depth raised (the check compiles clang++ programs with %s)'
                    % (clang_limit, thr, clang_limit + 1, thr, ' '.join(COMPILER_FLAGS['clang++'])))
             if any(f['kind'] == 'finding' and f['property'] == PID and f['key'] == 'clang-template-depth' for f in ctx.findings):
